@@ -327,6 +327,7 @@ def real_calculators(names, Efermi, tetra=False):
 
 
 def real_tabulators(names, ibands=None, mode="grid"):
+    """TabulatorAll over fresh tabulators (Energy, berry, vel, spin, invmass, morb, derberry)"""
     from wannierberri.calculators import tabulate as T
     table = {
         "Energy": T.Energy, "berry": T.BerryCurvature, "vel": T.Velocity, "spin": T.Spin,
